@@ -111,6 +111,26 @@ func (e *vEnv) rawCall(msg []byte) ([]byte, error) {
 	return buf.Bytes(), nil
 }
 
+// rawCallNoTick is rawCall without touching any shared harness state (concurrent callers).
+func (e *vEnv) rawCallNoTick(msg []byte) ([]byte, error) {
+	rd := bytes.NewReader(msg)
+	call, err := DecodeRPCCall(rd)
+	if err != nil {
+		return nil, fmt.Errorf("decode: %w", err)
+	}
+	body := bytes.NewReader(msg[len(msg)-rd.Len():])
+	authCtx := &AuthContext{Credential: &call.Credential, ClientIP: e.ip, ClientPort: e.port}
+	reply, err := e.h.HandleCall(call, body, authCtx)
+	if err != nil {
+		return nil, fmt.Errorf("handle: %w", err)
+	}
+	var buf bytes.Buffer
+	if err := EncodeRPCReply(&buf, reply); err != nil {
+		return nil, fmt.Errorf("encode: %w", err)
+	}
+	return buf.Bytes(), nil
+}
+
 // call sends (prog, vers, proc, args) with the environment's credential.
 func (e *vEnv) call(prog, vers, proc uint32, args []byte) (*wire.Reply, uint32, error) {
 	e.xid++
